@@ -14,6 +14,7 @@ import (
 
 func init() {
 	verifHarnesses["VerifHarness_CallTracerStream"] = VerifHarness_CallTracerStream
+	verifHarnesses["VerifHarness_FlatDeep"] = VerifHarness_FlatDeep
 }
 
 // verifStreamSink is what both tracers have in common for the stream driver.
@@ -216,4 +217,72 @@ func verifSameAddr(a, b []int) bool {
 
 func verifIsChild(parent, child []int) bool {
 	return len(child) == len(parent)+1 && verifSameAddr(parent, child[:len(parent)])
+}
+
+// verifFlatInvariants checks the flattened trace: sub-trace counts, unique and
+// prefix-closed trace addresses, one flat frame per nested frame.
+func verifFlatInvariants(root *callFrame, expectFrames int) {
+	frames, err := flatFromNested(root, []int{}, false, nil)
+	verifAssert(err == nil, "C19: flattening succeeds")
+	verifAssert(len(frames) == expectFrames, "C19: the flat trace has one entry per frame")
+	for i := range frames {
+		kids := 0
+		for j := range frames {
+			if verifIsChild(frames[i].TraceAddress, frames[j].TraceAddress) {
+				kids++
+			}
+			if i != j {
+				verifAssert(!verifSameAddr(frames[i].TraceAddress, frames[j].TraceAddress), "C19: trace addresses are unique")
+			}
+		}
+		verifAssert(frames[i].Subtraces == kids, "C19: sub-trace count equals the number of emitted children")
+		if len(frames[i].TraceAddress) > 0 {
+			found := false
+			pa := frames[i].TraceAddress[:len(frames[i].TraceAddress)-1]
+			for j := range frames {
+				if verifSameAddr(pa, frames[j].TraceAddress) {
+					found = true
+				}
+			}
+			verifAssert(found, "C19: trace addresses are prefix-closed")
+		}
+	}
+}
+
+// VerifHarness_FlatDeep: a chain of nested calls of symbolic depth with several
+// children (calls and Aspect executions) at the bottom, flattened.
+func VerifHarness_FlatDeep() {
+	maxDepth, maxKids := verifParam("depth"), verifParam("children")
+	inner := &callTracer{callstack: make([]callFrame, 1)}
+	t := &flatCallTracer{tracer: inner}
+	t.config.IncludePrecompiles = true
+	t.CaptureTxStart(1000)
+	inner.CaptureStart(nil, common.Address{1}, common.Address{2}, false, nil, 900, big.NewInt(1))
+	depth := verifChoose("chain", maxDepth)
+	for d := 0; d < depth; d++ {
+		t.CaptureEnter(vm.CALL, common.Address{2}, common.Address{byte(10 + d)}, nil, 100, big.NewInt(0))
+	}
+	frames := 1 + depth
+	if verifBool("bottom.pre") {
+		verifJP(t, types.JoinPointRunType_PreContractCall, 0, common.Address{9})
+		frames++
+	}
+	kids := verifChoose("bottom.kids", maxKids)
+	for k := 0; k < kids; k++ {
+		t.CaptureEnter(vm.CALL, common.Address{3}, common.Address{byte(40 + k)}, nil, 10, big.NewInt(0))
+		t.CaptureExit(nil, 1, nil)
+		frames++
+	}
+	if verifBool("bottom.post") {
+		verifJP(t, types.JoinPointRunType_PostContractCall, 0, common.Address{9})
+		frames++
+	}
+	for d := 0; d < depth; d++ {
+		t.CaptureExit(nil, 1, nil)
+	}
+	t.CaptureEnd(nil, 800, nil)
+	t.CaptureTxEnd(100)
+	verifReach("stream-done")
+	verifAssert(len(inner.callstack) == 1, "C19: exactly one top-level frame remains")
+	verifFlatInvariants(&inner.callstack[0], frames)
 }
